@@ -358,8 +358,9 @@ def h64(*parts):
     return m.digest()
 
 
-class Timeout(Exception):
-    pass
+class Timeout(BaseException):
+    """Raised by the watchdog's SIGALRM handler.  Not an Exception: the drivers' many `except Exception` clauses (which
+    turn a library failure into an outcome) must never turn a harness budget into a verdict about the library."""
 
 
 def _alarm(signum, frame):
